@@ -1,5 +1,5 @@
 PROP = {
-    "groups": ["names"],
+    "groups": ["names", "dupnames"],
     "rule": "real receiver name handling (recvFileName over the wire, createFile, unmarshalSourceFile+createDirOrFile with "
             "truncate on/off, archiveFileWriter.Write headers incl. nested, deleteCreatedFiles, getNewName) in real directory "
             "trees <private mktemp root>/l1/../l8/r/sb/{dest,outside,evil} (11 levels deep, at most 6 '..' per name, so that a tree "
